@@ -1,5 +1,5 @@
 (* WfIOProofs.v -- lemmas about WfIO.v (C15).  No axioms. *)
-From Coq Require Import Ascii.
+From Coq Require Import Ascii Permutation Setoid Morphisms.
 From PW Require Import Base WfIO.
 Open Scope string_scope.
 Open Scope list_scope.
@@ -374,30 +374,58 @@ Definition all_ids (st : wf) : list nat := flat_map child_ids (w_children st).
 
 Definition map_ok (m : kmap) : Prop := match m with None => True | Some l => NoDup (map snd l) end.
 
+(* the node objects alive in a history: the children and the removed nodes the user still holds;
+   what matters of each is its two channel lists (relabelling leaves them alone) *)
+Definition nodes (st : wf) : list child := w_children st ++ w_shelf st.
+Definition body (c : child) : list (string * nat) * list (string * nat) := (c_ins c, c_outs c).
+Definition body_ids (b : list (string * nat) * list (string * nat)) : list nat :=
+  map snd (fst b) ++ map snd (snd b).
+Definition body_ok (b : list (string * nat) * list (string * nat)) : Prop :=
+  NoDup (map fst (fst b)) /\ NoDup (map fst (snd b)).
+Definition bodies (st : wf) : list (list (string * nat) * list (string * nat)) := map body (nodes st).
+
 Record wfs (st : wf) : Prop := {
   wf_labels : NoDup (map c_label (w_children st));
-  wf_ids : NoDup (all_ids st);
-  wf_lt : forall id, In id (all_ids st) -> id < w_next st;
-  wf_chl : forall c, In c (w_children st) -> NoDup (map fst (c_ins c)) /\ NoDup (map fst (c_outs c));
+  wf_idsA : NoDup (flat_map body_ids (bodies st));
+  wf_ltA : forall id, In id (flat_map body_ids (bodies st)) -> id < w_next st;
+  wf_chlA : Forall body_ok (bodies st);
   wf_im : map_ok (w_imap st);
   wf_om : map_ok (w_omap st) }.
 
+Lemma flat_body_ids l : flat_map body_ids (map body l) = flat_map child_ids l.
+Proof. induction l as [|c r IH]; simpl; [reflexivity|]. now rewrite IH. Qed.
+
+Lemma bodies_split st :
+  flat_map body_ids (bodies st) = all_ids st ++ flat_map child_ids (w_shelf st).
+Proof. unfold bodies, nodes, all_ids. now rewrite map_app, flat_map_app, !flat_body_ids. Qed.
+
+Lemma wf_ids st : wfs st -> NoDup (all_ids st).
+Proof. intros W. pose proof (wf_idsA _ W) as H. rewrite bodies_split in H. now apply nodup_app_iff in H. Qed.
+
+Lemma wf_chl st : wfs st -> forall c, In c (w_children st) ->
+  NoDup (map fst (c_ins c)) /\ NoDup (map fst (c_outs c)).
+Proof.
+  intros W c Hc. pose proof (wf_chlA _ W) as H. rewrite Forall_forall in H.
+  apply (H (body c)). unfold bodies, nodes. apply in_map, in_or_app. now left.
+Qed.
+
 Definition same_struct (a b : wf) : Prop :=
-  w_children b = w_children a /\ w_next b = w_next a /\ w_imap b = w_imap a /\ w_omap b = w_omap a.
+  w_children b = w_children a /\ w_next b = w_next a /\ w_imap b = w_imap a /\ w_omap b = w_omap a
+  /\ w_shelf b = w_shelf a.
 
 Definition same_graph (a b : wf) : Prop := same_struct a b /\ w_conns b = w_conns a.
 
 Lemma wfs_same a b : same_struct a b -> wfs a -> wfs b.
 Proof.
-  intros (E1 & E2 & E3 & E4) [H1 H2 H3 H4 H5 H6].
-  constructor; unfold all_ids in *; rewrite ?E1, ?E2, ?E3, ?E4; assumption.
+  intros (E1 & E2 & E3 & E4 & E5) [H1 H2 H3 H4 H5 H6].
+  constructor; unfold bodies, nodes in *; rewrite ?E1, ?E2, ?E3, ?E4, ?E5; assumption.
 Qed.
 
 Lemma same_struct_refl a : same_struct a a.
 Proof. repeat split. Qed.
 
 Lemma same_struct_trans a b c : same_struct a b -> same_struct b c -> same_struct a c.
-Proof. intros (A1 & A2 & A3 & A4) (B1 & B2 & B3 & B4). repeat split; congruence. Qed.
+Proof. intros (A1 & A2 & A3 & A4 & A5) (B1 & B2 & B3 & B4 & B5). repeat split; congruence. Qed.
 
 Lemma same_graph_refl a : same_graph a a.
 Proof. split; [apply same_struct_refl|reflexivity]. Qed.
@@ -407,7 +435,7 @@ Proof. intros [A B] [C D]. split; [eapply same_struct_trans; eauto|congruence]. 
 
 Lemma build_io_same a b d : same_graph a b -> build_io b d = build_io a d.
 Proof.
-  intros ((E1 & E2 & E3 & E4) & E5). unfold build_io, kmap_of. rewrite E1.
+  intros ((E1 & E2 & E3 & E4 & _) & E5). unfold build_io, kmap_of. rewrite E1.
   assert (Hk : match d with DIn => w_imap b | DOut => w_omap b end =
                match d with DIn => w_imap a | DOut => w_omap a end) by (destruct d; assumption).
   rewrite Hk. clear E1 Hk. generalize (@nil (string * nat)).
@@ -427,7 +455,7 @@ Qed.
 
 Lemma exposes_same a b d k id : same_graph a b -> (exposes b d k id <-> exposes a d k id).
 Proof.
-  intros ((E1 & E2 & E3 & E4) & E5). unfold exposes, kmap_of, connected. rewrite E1, E5.
+  intros ((E1 & E2 & E3 & E4 & _) & E5). unfold exposes, kmap_of, connected. rewrite E1, E5.
   assert (Hk : match d with DIn => w_imap b | DOut => w_omap b end =
                match d with DIn => w_imap a | DOut => w_omap a end) by (destruct d; assumption).
   rewrite Hk. tauto.
@@ -451,43 +479,171 @@ Lemma in_all_ids st id :
   In id (all_ids st) <-> exists c, In c (w_children st) /\ In id (child_ids c).
 Proof. unfold all_ids. apply in_flat_map. Qed.
 
+(* the body of a node made now, from kind k *)
+Definition fresh_body (st : wf) (k : nat) : list (string * nat) * list (string * nat) :=
+  (number (w_next st) (map fst (k_ins (kind_spec k))),
+   number (w_next st + List.length (k_ins (kind_spec k))) (k_outs (kind_spec k))).
+
+Definition fresh_next (st : wf) (k : nat) : nat :=
+  w_next st + List.length (k_ins (kind_spec k)) + List.length (k_outs (kind_spec k)).
+
+Lemma fresh_body_ids st k :
+  body_ids (fresh_body st k) =
+  seq (w_next st) (List.length (k_ins (kind_spec k)) + List.length (k_outs (kind_spec k))).
+Proof. unfold body_ids, fresh_body; simpl. now rewrite !number_snd, map_length, seq_app. Qed.
+
+Lemma fresh_body_ok st k : body_ok (fresh_body st k).
+Proof. unfold body_ok, fresh_body; simpl. rewrite !number_fst. apply kind_labels_nodup. Qed.
+
+(* the general preservation step: the node objects are the old ones, in any order, plus
+   possibly nodes created now *)
+Lemma wfs_step a b extra :
+  wfs a ->
+  NoDup (map c_label (w_children b)) ->
+  Permutation (bodies b) (extra ++ bodies a) ->
+  (extra = [] /\ w_next a <= w_next b \/
+   exists k, extra = [fresh_body a k] /\ w_next b = fresh_next a k) ->
+  map_ok (w_imap b) -> map_ok (w_omap b) -> wfs b.
+Proof.
+  intros [H1 H2 H3 H4 H5 H6] L P E Mi Mo.
+  assert (PF : Permutation (flat_map body_ids (bodies b)) (flat_map body_ids extra ++ flat_map body_ids (bodies a))).
+  { rewrite <- flat_map_app. now apply Permutation_flat_map. }
+  constructor; try assumption.
+  - apply (Permutation_NoDup (Permutation_sym PF)). apply nodup_app_iff.
+    destruct E as [[-> _]|(k & -> & _)]; simpl.
+    + repeat split; [constructor|exact H2|tauto].
+    + rewrite app_nil_r, fresh_body_ids. repeat split; [apply seq_NoDup|exact H2|].
+      intros x Hx Hx'. apply in_seq in Hx. apply H3 in Hx'. lia.
+  - intros id Hi. apply (Permutation_in _ PF) in Hi. apply in_app_or in Hi.
+    destruct E as [[-> Hle]|(k & -> & ->)]; simpl in Hi.
+    + destruct Hi as [[]|Hi]. apply H3 in Hi. lia.
+    + rewrite app_nil_r, fresh_body_ids in Hi. unfold fresh_next. destruct Hi as [Hi|Hi].
+      * apply in_seq in Hi. lia.
+      * apply H3 in Hi. lia.
+  - apply (Permutation_Forall (Permutation_sym P)). apply Forall_app. split; [|exact H4].
+    destruct E as [[-> _]|(k & -> & _)]; [constructor|]. constructor; [apply fresh_body_ok|constructor].
+Qed.
+
+Lemma take_perm l cs c r : take_child l cs = Some (c, r) -> Permutation cs (c :: r).
+Proof.
+  revert c r. induction cs as [|x xs IH]; intros c r; simpl; [discriminate|].
+  destruct (String.eqb l (c_label x)); [intros [= <- <-]; apply Permutation_refl|].
+  destruct (take_child l xs) as [[y ys]|]; [|discriminate]. intros [= <- <-].
+  eapply Permutation_trans; [apply perm_skip, (IH _ _ eq_refl)|apply perm_swap].
+Qed.
+
+Lemma take_labels l cs c r :
+  take_child l cs = Some (c, r) -> NoDup (map c_label cs) ->
+  NoDup (map c_label r) /\ ~ In (c_label c) (map c_label r) /\ incl (map c_label r) (map c_label cs).
+Proof.
+  intros T Hn. pose proof (Permutation_map c_label (take_perm _ _ _ _ T)) as P. simpl in P.
+  pose proof (Permutation_NoDup P Hn) as Hn'. inversion Hn'; subst. repeat split; try assumption.
+  intros x Hx. apply (Permutation_in _ (Permutation_sym P)). now right.
+Qed.
+
+Lemma body_relabel c l : body (relabel c l) = body c.
+Proof. reflexivity. Qed.
+
+Lemma nodup_snoc {A} (l : list A) x : NoDup l -> ~ In x l -> NoDup (l ++ [x]).
+Proof.
+  intros Hn Hx. apply nodup_app_iff. repeat split; [exact Hn|constructor; [tauto|constructor]|].
+  intros y Hy [<-|[]]. tauto.
+Qed.
+
 Lemma add_child_wfs st k l : wfs st -> wfs (fst (add_child st k l)).
 Proof.
   intros W. unfold add_child. destruct (mems l (map c_label (w_children st))) eqn:E.
   - simpl. eapply wfs_same; [|exact W]. repeat split.
-  - simpl. destruct W as [H1 H2 H3 H4 H5 H6]. apply mems_false in E.
-    set (sp := kind_spec k). set (n := w_next st).
-    assert (Hids : child_ids {| c_label := l; c_kind := k; c_ins := number n (map fst (k_ins sp));
-                     c_outs := number (n + List.length (k_ins sp)) (k_outs sp) |}
-                   = seq n (List.length (k_ins sp) + List.length (k_outs sp))).
-    { unfold child_ids; simpl. rewrite !number_snd, map_length, seq_app. reflexivity. }
-    constructor; simpl.
-    + rewrite map_app. simpl. apply nodup_app_iff. repeat split; [exact H1|constructor; [tauto|constructor]|].
-      intros x Hx [<-|[]]. tauto.
-    + unfold all_ids; simpl. rewrite flat_map_app. simpl. rewrite app_nil_r, Hids.
-      apply nodup_app_iff. repeat split; [exact H2|apply seq_NoDup|].
-      intros x Hx Hs. apply in_seq in Hs. apply H3 in Hx. fold n in Hx. lia.
-    + intros id Hi. unfold all_ids in Hi; simpl in Hi. rewrite flat_map_app in Hi. simpl in Hi.
-      rewrite app_nil_r, Hids in Hi. apply in_app_or in Hi as [Hi|Hi].
-      * apply H3 in Hi. fold n in Hi. lia.
-      * apply in_seq in Hi. fold n. lia.
-    + intros c0 Hc. apply in_app_or in Hc as [Hc|[<-|[]]]; [now apply H4|]. simpl.
-      rewrite !number_fst. apply kind_labels_nodup.
-    + exact H5.
-    + exact H6.
+  - simpl. apply mems_false in E.
+    apply (wfs_step st _ [fresh_body st k] W); simpl.
+    + rewrite map_app. simpl. apply nodup_snoc; [apply (wf_labels _ W)|exact E].
+    + unfold bodies, nodes; simpl. rewrite <- app_assoc, !map_app. simpl.
+      apply Permutation_sym, Permutation_middle.
+    + right. exists k. split; reflexivity.
+    + apply (wf_im _ W).
+    + apply (wf_om _ W).
 Qed.
 
 Lemma remove_child_wfs st l : wfs st -> wfs (fst (remove_child st l)).
 Proof.
-  intros W. unfold remove_child. destruct (find_child l (w_children st)); [|exact W]. simpl.
-  destruct W as [H1 H2 H3 H4 H5 H6]. constructor; simpl.
-  - now apply nodup_filter_map.
-  - unfold all_ids; simpl. now apply nodup_flat_map_filter.
-  - intros id Hi. apply H3. unfold all_ids in *; simpl in Hi. apply in_flat_map in Hi as (c1 & Hc & Hi).
-    apply filter_In in Hc as [Hc _]. apply in_flat_map. now exists c1.
-  - intros c1 Hc. apply filter_In in Hc as [Hc _]. now apply H4.
-  - exact H5.
-  - exact H6.
+  intros W. unfold remove_child. destruct (take_child l (w_children st)) as [[c cs]|] eqn:T; [|exact W]. simpl.
+  apply (wfs_step st _ [] W); simpl.
+  - apply (take_labels _ _ _ _ T (wf_labels _ W)).
+  - unfold bodies, nodes; simpl. rewrite !map_app. simpl.
+    eapply Permutation_trans; [apply Permutation_sym, Permutation_middle|].
+    apply (Permutation_app_tail _ (Permutation_sym (Permutation_map body (take_perm _ _ _ _ T)))).
+  - left. split; [reflexivity|lia].
+  - apply (wf_im _ W).
+  - apply (wf_om _ W).
+Qed.
+
+Lemma readd_wfs st sl nl : wfs st -> wfs (fst (readd st sl nl)).
+Proof.
+  intros W. unfold readd. destruct (take_child sl (w_shelf st)) as [[c rest]|] eqn:T; [|exact W].
+  set (l := match nl with Some x => x | None => c_label c end).
+  destruct (mems l (map c_label (w_children st))) eqn:E; simpl.
+  - eapply wfs_same; [|exact W]. repeat split.
+  - apply mems_false in E. apply (wfs_step st _ [] W); simpl.
+    + rewrite map_app. simpl. apply nodup_snoc; [apply (wf_labels _ W)|exact E].
+    + unfold bodies, nodes; simpl. rewrite <- app_assoc, !map_app. simpl.
+      apply Permutation_app_head. apply (Permutation_sym (Permutation_map body (take_perm _ _ _ _ T))).
+    + left. split; [reflexivity|lia].
+    + apply (wf_im _ W).
+    + apply (wf_om _ W).
+Qed.
+
+Lemma relabel_child_wfs st cur new : wfs st -> wfs (fst (relabel_child st cur new)).
+Proof.
+  intros W. unfold relabel_child. destruct (take_child cur (w_children st)) as [[c rest]|] eqn:T; [|exact W].
+  destruct (String.eqb cur new); simpl; [eapply wfs_same; [|exact W]; repeat split|].
+  destruct (mems new (map c_label (w_children st))) eqn:E; simpl.
+  - eapply wfs_same; [|exact W]. repeat split.
+  - apply mems_false in E. destruct (take_labels _ _ _ _ T (wf_labels _ W)) as (Hn & _ & Hi).
+    apply (wfs_step st _ [] W); simpl.
+    + rewrite map_app. simpl. apply nodup_snoc; [exact Hn|]. intros Hx. apply E, Hi, Hx.
+    + unfold bodies, nodes; simpl. rewrite <- app_assoc, !map_app. simpl.
+      eapply Permutation_trans; [apply Permutation_sym, Permutation_middle|].
+      apply (Permutation_app_tail _ (Permutation_sym (Permutation_map body (take_perm _ _ _ _ T)))).
+    + left. split; [reflexivity|lia].
+    + apply (wf_im _ W).
+    + apply (wf_om _ W).
+Qed.
+
+Lemma replace_child_wfs st cur src : wfs st -> wfs (fst (replace_child st cur src)).
+Proof.
+  intros W. unfold replace_child. destruct (take_child cur (w_children st)) as [[c rest]|] eqn:T; [|exact W].
+  destruct (take_labels _ _ _ _ T (wf_labels _ W)) as (Hn & Hc & _).
+  assert (HL : NoDup (map c_label (rest ++ [relabel c (c_label c)]))).
+  { rewrite map_app. simpl. now apply nodup_snoc. }
+  pose proof (Permutation_map body (take_perm _ _ _ _ T)) as PB. simpl in PB.
+  destruct src as [sl|].
+  - destruct (take_child sl (w_shelf st)) as [[r sh]|] eqn:T2; [|exact W].
+    pose proof (Permutation_map body (take_perm _ _ _ _ T2)) as PS. simpl in PS.
+    match goal with |- context [if negb ?b then _ else _] => destruct b end; simpl; [|exact W].
+    apply (wfs_step st _ [] W); simpl.
+    + rewrite map_app in *. exact HL.
+    + unfold bodies, nodes; simpl. rewrite <- app_assoc, !map_app. simpl.
+      rewrite PB, PS. simpl.
+      eapply Permutation_trans; [apply Permutation_sym, Permutation_middle|].
+      eapply Permutation_trans; [apply perm_skip, Permutation_sym, Permutation_middle|].
+      eapply Permutation_trans; [apply perm_swap|]. apply perm_skip, Permutation_middle.
+    + left. split; [reflexivity|lia].
+    + apply (wf_im _ W).
+    + apply (wf_om _ W).
+  - match goal with |- context [if negb ?b then _ else _] => destruct b end; simpl; [|exact W].
+    apply (wfs_step st _ [fresh_body st (c_kind c)] W); simpl.
+    + rewrite map_app in *. exact HL.
+    + unfold bodies, nodes; simpl. rewrite <- app_assoc, !map_app. simpl. rewrite PB. simpl.
+      change (body {| c_label := c_label c; c_kind := c_kind c;
+                      c_ins := number (w_next st) (map fst (k_ins (kind_spec (c_kind c))));
+                      c_outs := number (w_next st + List.length (k_ins (kind_spec (c_kind c))))
+                                  (k_outs (kind_spec (c_kind c))) |})
+        with (fresh_body st (c_kind c)).
+      eapply Permutation_trans; [apply Permutation_sym, Permutation_middle|]. apply perm_skip.
+      apply Permutation_sym, Permutation_middle.
+    + right. exists (c_kind c). split; reflexivity.
+    + apply (wf_im _ W).
+    + apply (wf_om _ W).
 Qed.
 
 Lemma dedup_nones_snd_nodup m :
@@ -554,6 +710,9 @@ Proof.
     destruct (assoc String.eqb key p); simpl; [|exact W].
     eapply wfs_same; [apply connect_ids_struct|exact W].
   - eapply wfs_same; [apply run_wf_graph|exact W].
+  - now apply readd_wfs.
+  - now apply relabel_child_wfs.
+  - now apply replace_child_wfs.
 Qed.
 
 Lemma run_ops_wfs ops : forall st, wfs st -> wfs (run_ops st ops).
@@ -562,7 +721,7 @@ Proof. induction ops as [|o r IH]; intros st W; simpl; [exact W|]. apply IH. now
 Lemma init_wfs i o : map_ok i -> map_ok o -> wfs (init_wf i o).
 Proof.
   intros Hi Ho. constructor; simpl;
-    [constructor|constructor|intros id []|intros c []|assumption|assumption].
+    [constructor|constructor|intros id []|constructor|assumption|assumption].
 Qed.
 
 (* every state a history can produce *)
